@@ -18,6 +18,17 @@ import mp4walk
 import segwalk
 
 _STREAMS_READY = False
+# stored per-stream defaults, in the JSON form the edit-stream-defaults page writes (flatten())
+STREAM_DEFAULTS = {
+    "syn9": {"timeShiftBufferDepth": 35, "leeway": 13, "minimumUpdatePeriod": 6,
+             "availabilityStartTime": "2022-03-04T05:06:07Z"},
+}
+
+
+def stream_leeway_us(stream: str, global_default: int) -> int:
+    """leeway (µs) in force for a request that does not name one"""
+    return int(STREAM_DEFAULTS.get(stream, {}).get("leeway", global_default)) * 10 ** 6
+
 
 
 def ensure_streams(app: appboot.App):
@@ -79,6 +90,17 @@ def ensure_streams(app: appboot.App):
     a = mp4synth.make_track("audio", 48000, [384000, 192512], samples_per_segment=[375, 188], seed=82, track_id=2,
                             sample_durations_in="trun")
     mp4synth.register(app, "syn8", "Synthetic two segments", {"syn8_v1": v, "syn8_a1": a}, timing_from="syn8_v1")
+    # syn9: a stream with *stored defaults* (Stream.defaults: depth, leeway, update period and an explicit
+    # availabilityStartTime) – the manifest request and every media request must resolve them the same way
+    # although the media URLs do not repeat them; one very long and one short interior segment
+    v = mp4synth.make_track("video", 1000, [2000, 12000, 1000, 3000], samples_per_segment=4, seed=91, track_id=1)
+    a = mp4synth.make_track("audio", 48000, [96256, 575488, 48128, 144384], samples_per_segment=[94, 562, 47, 141],
+                            seed=92, track_id=2, sample_durations_in="trun")
+    mp4synth.register(app, "syn9", "Synthetic with stream defaults", {"syn9_v1": v, "syn9_a1": a}, timing_from="syn9_v1")
+    with app.ctx() as models:
+        st = models.Stream.get(directory="syn9")
+        st.defaults = dict(STREAM_DEFAULTS["syn9"])
+        models.db.session.commit()
     _STREAMS_READY = True
 
 
@@ -174,9 +196,62 @@ class Fetch:
     walk_error: str | None = None
     listed_index: int | None = None     # index in the expanded timeline
     end_le_now: bool | None = None      # (t+d)/ts <= now - AST  (C01's condition)
+    before_window: bool | None = None   # t + d/2 < now - AST - timeShiftBufferDepth (listed although its
+    #                                     midpoint precedes the time-shift window as of `now`)
 
     def json(self):
         return {k: v for k, v in self.__dict__.items()}
+
+
+def _event_schedules(manifest_url: str):
+    """(timescale, interval, start, count) of every in-band event schedule the manifest URL enables"""
+    import urllib.parse
+    q = dict(urllib.parse.parse_qsl(urllib.parse.urlsplit(manifest_url).query))
+    for k in [k for k in q.get("events", "").split(",") if k in ("ping", "scte35")]:
+        if q.get(f"{k}__inband", "1").lower() in ("0", "false"):
+            continue
+        try:
+            sched = (int(q.get(f"{k}__timescale", 100)), int(q.get(f"{k}__interval", 1000)),
+                     int(q.get(f"{k}__start", 0)), int(q.get(f"{k}__count", 0)))
+        except ValueError:
+            continue
+        if sched[0] >= 1 and sched[1] >= 1:
+            yield sched
+
+
+def max_event_id(manifest_url: str, tfdt: int, dur: int, ts: int):
+    """largest id of an in-band event carried by the video segment [tfdt, tfdt+dur) (ticks of `ts`), following
+    RepeatingEventBase.create_emsg_boxes: event k is at start + k*interval (event timescale) and belongs to
+    the segment when floor(tfdt*ets/ts) <= time < floor((tfdt+dur)*ets/ts).  None: no event in the segment."""
+    best = None
+    for ets, interval, start, count in _event_schedules(manifest_url):
+        a, b = tfdt * ets // ts, (tfdt + dur) * ets // ts
+        first = 0 if a <= start else -((start - a) // interval)      # ceil((a - start) / interval)
+        last = (b - 1 - start) // interval if b > start else -1
+        if count > 0:
+            last = min(last, count - 1)
+        if last >= first:
+            best = last if best is None else max(best, last)
+    return best
+
+
+def event_id_overflow(manifest_url: str, mode: str, value: int, adv_d: int, track, tfdt=None, dur=None) -> bool:
+    """ledger class `event-id-beyond-32-bits` (C14's D13j seen from C01/C02): the manifest enabled in-band
+    events and the *video* segment carries an event whose id (= (event time - schedule start) // interval,
+    in the schedule's timescale) needs more than 32 bits – the emsg id / splice_event_id fields cannot hold
+    it and the segment request is refused with 400.  With the served decode time and stored duration
+    (`tfdt`, `dur`) the test is exact; from the request alone ($Number$) it is the range of ids the
+    segment could carry."""
+    if track.content_type != "video" or value is None:
+        return False
+    if tfdt is None and mode == "time":
+        tfdt, dur = value, adv_d
+    if tfdt is not None and dur:
+        m = max_event_id(manifest_url, tfdt, dur, track.ts)
+        return m is not None and m >= 2 ** 32
+    end_ticks = (value - track.sn) * track.sd + 2 * (adv_d or track.sd)
+    return any((end_ticks * ets // track.ts - start) // interval >= 2 ** 32
+               for ets, interval, start, _ in _event_schedules(manifest_url))
 
 
 def iso(dt: datetime.datetime) -> str:
@@ -242,6 +317,8 @@ def walk_manifest(app, client, clock, stream: str, url: str, now: datetime.datet
                 u = rep.media_url(time=t)
                 f = Fetch(url, iso(now), now_us, stream, rep.rep_id, "time", t, d, u, 0, listed_index=i)
                 f.end_le_now = (t + d) * 1_000_000 <= rel_us * rep.timescale if mpd.type == "dynamic" else True
+                if mpd.type == "dynamic" and mpd.tsbd_us is not None:
+                    f.before_window = (2 * t + d) * 1_000_000 < 2 * (rel_us - mpd.tsbd_us) * rep.timescale
                 _fetch(client, f, trex_dur)
                 out.append(f)
         elif rep.timeline is not None and "$Number$" in rep.media:
@@ -253,6 +330,8 @@ def walk_manifest(app, client, clock, stream: str, url: str, now: datetime.datet
                 f = Fetch(url, iso(now), now_us, stream, rep.rep_id, "number", rep.start_number + i, d, u, 0,
                           listed_index=i)
                 f.end_le_now = (t + d) * 1_000_000 <= rel_us * rep.timescale if mpd.type == "dynamic" else True
+                if mpd.type == "dynamic" and mpd.tsbd_us is not None:
+                    f.before_window = (2 * t + d) * 1_000_000 < 2 * (rel_us - mpd.tsbd_us) * rep.timescale
                 _fetch(client, f, trex_dur)
                 out.append(f)
         elif rep.duration and "$Number$" in rep.media:
